@@ -28,7 +28,12 @@ for d in sorted(glob.glob(os.path.join(HERE, "seeded", "*"))):
     needs = (m.get("needs") or "").replace("\n", " ").replace("|", "/")
     if len(summary) > 230: summary = summary[:227] + "..."
     if len(needs) > 160: needs = needs[:157] + "..."
-    rows.append(f"| {name} | {summary} | {needs} | {conf} | {'; '.join(caught) if caught else '**not caught**'} |")
+    cell = '; '.join(caught) if caught else '**not caught**'
+    if m.get("superseded"):
+        cell += f" — result at the /repo HEAD the patch was written for; superseded at {m['superseded'].get('at_repo_head', '?')}: the patch no longer breaks the property there"
+    elif m.get("checks", {}).get("rebased_patch"):
+        cell += " (patch re-applied by hand to the current HEAD)"
+    rows.append(f"| {name} | {summary} | {needs} | {conf} | {cell} |")
 table = "| seed | change | needs | confirmed (suite passes, demo fails with / passes without) | caught by |\n|---|---|---|---|---|\n" + "\n".join(rows)
 p = os.path.join(HERE, "DESIGN.md")
 s = open(p).read()
